@@ -36,6 +36,13 @@ class Oracle:
     def reset(self):
         return self.ask("RESET")
 
+    def build(self, cipher, mac, zip_, realm, salt, addr, time0, ttl, uid, gid, auth_uid, auth_gid, data, iv):
+        """credential built by the SPEC (V3Accept.v3_build), not by the model's encoder; None if the compressor refuses"""
+        r = self.ask("BUILD %d %d %d %s %s %s %d %d %d %d %d %d %s %s" % (
+            cipher, mac, zip_, vlib.hexs(realm), vlib.hexs(salt), vlib.hexs(addr), time0, ttl, uid, gid, auth_uid, auth_gid,
+            vlib.hexs(data), vlib.hexs(iv))).split()
+        return None if r[1] == "none" else bytes.fromhex(r[1])
+
     def purge(self, now):
         return int(self.ask("PURGE %d" % now).split()[1])
 
